@@ -251,6 +251,65 @@ def run(ctx):
             ctx.sample({'transformation': p['t'], 'ids': p['ids'], 'base_first': p['base'][:1],
                         'image_first': p['image'][:1]})
         ctx.part('pairs', compared=len(pairs), rejected=rej, undetermined_cells=und_total, bases=nbase)
+    if ctx.only in (None, 'sparse'):
+        # 30-60 cells stored sparsely (CSR with cells without any count in the middle of a batch; CSC converted
+        # in several blocks because max_gb is tiny) against the same cells reordered / thinned out / in other batches
+        items, meta = [], []
+        for b in range(4 if quick else 40):
+            while True:
+                t_ = maptrace.random_tree(rng, 2, 6, 3)
+                if len(t_['nodes'][0]) > 1:
+                    break
+            n = rng.randint(30, 60)
+            enc = 'csc' if b % 2 else 'csr'
+            base = maptrace.gen_scenario(rng, tree=t_, G=6, vmax=9, ncell=n,
+                                         cfg={'fnum': 1, 'fden': 1, 'drop': None, 'flatten': False, 'B': 2,
+                                              'K': rng.randint(0, 2), 'chunk': rng.randint(7, n), 'P': rng.randint(1, 3),
+                                              'enc': enc, 'minm': 1, 'max_gb': 1e-7 if enc == 'csc' else 1.0})
+            base['qgenes'] = rng.sample(range(1, 7), 6)
+            base['markers']['0/0'] = [1, 2, 3, 4, 5, 6]
+            safe_markers(rng, base)
+            base['Q'] = [[rng.choice([0, 0, 1, 3, 9]) for _ in range(6)] for _ in range(n)]
+            for i in rng.sample(range(1, n - 1), 4):
+                base['Q'][i] = [0] * 6
+            items.append((base, 'structural', {'want_trace': True}))
+            meta.append(('base', None))
+            order = list(range(n))
+            rng.shuffle(order)
+            for t in (('perm', list(reversed(range(n)))), ('perm', order),
+                      ('subset', [i for i in range(n) if i % 2 == 0]),
+                      ('subset', sorted(rng.sample(range(n), n // 3))), ('chunk', rng.randint(3, 11))):
+                img, ids = apply(rng, base, t)
+                img['cfg']['enc'] = enc
+                if t[0] != 'chunk':
+                    img['cfg']['chunk'] = rng.randint(5, n)
+                items.append((img, 'structural', {}))
+                meta.append((t[0], ids))
+        rs = relations.run_many(ctx, items)
+        pairs, und_total = [], 0
+        cur = None
+        for r, (kind, ids) in zip(rs, meta):
+            if kind == 'base':
+                cur = r
+                und = relations.undetermined_cells(r['scn'], r['trace']) if r['ok'] else set()
+                continue
+            ctx.count({'base': cur['scn'], 't': kind, 'chunk': r['scn']['cfg']['chunk'], 'n': len(ids)}, nontrivial=True)
+            if not cur['ok'] or not r['ok']:
+                ctx.report('pair:run-failed', f'base ok={cur["ok"]} ({cur["error"]}) image ok={r["ok"]} ({r["error"]}) '
+                           f'sparse {cur["scn"]["cfg"]["enc"]} {kind}', {'base': cur['scn'], 'img': r['scn']})
+                continue
+            keep = [c for c in ids if c not in und]
+            und_total += len(ids) - len(keep)
+            pairs.append({'rel': 'join_close', 'tree': cur['scn']['tree'], 'base': cur['recs'], 'image': r['recs'],
+                          'levels': cur['scn']['tree']['hier'], 'ids': keep, 't': (kind + ':' + cur['scn']['cfg']['enc'], None),
+                          'b': cur['scn'], 'i': r['scn'], 'scheme': 'structural'})
+        rej = 0
+        for p, v in relations.decide(ctx, pairs, 'Relations_Trace_c06_sparse'):
+            if not v['accepted']:
+                rej += 1
+                ctx.report(f'clause:{v["inv"]}:{p["t"][0]}', f'{relations.CL.get(v["inv"])}; transformation {p["t"][0]} of a '
+                           f'{len(p["b"]["cells"])}-cell query', {'base': p['b'], 'img': p['i'], 'scheme': p['scheme']})
+        ctx.part('sparse', compared=len(pairs), rejected=rej, undetermined_cells=und_total)
     if ctx.only in (None, 'big'):
         # more than 10 000 cells in one batch against the same cells in batches of 3 000
         tj = {'hier': [1, 2], 'keys': [1, 2], 'nodes': [[1, 2, 3], [1, 2, 3, 4, 5, 6]],
